@@ -224,6 +224,28 @@ def x8(ctx, tab, sites, pp):
                        (caller, callee, c, 'not carried (the callee has no such parameter, so its own calls start again from a constant)'
                         if t == 'dropped' else t),
                        {'edge': [caller, callee], 'counter': c, 'transfer': t})
+    # ranking counters are never modified inside a function: the value a callee receives is a pure function of the
+    # value the caller received (an in-place `counter += 1` makes siblings, not only nested levels, count)
+    for f in sorted(scc):
+        fn = tab[f][2]
+        for p_ in fn['sig']['params']:
+            if p_.get('k') == 'typed' and p_['pat'].get('k') == 'ident' and p_['pat']['n'] in counters:
+                r.inst('immutable:%s:%s' % (f, p_['pat']['n']))
+                if p_['pat'].get('mut'):
+                    r.fail('%s:%s:counter-mutable:%s' % (PP, f, p_['pat']['n']), '%s/%s:%s' % (PP, tab[f][1], fn['l']),
+                           '%s declares the ranking counter `%s` as `mut`' % (f, p_['pat']['n']))
+        for n in sx.walk(fn['body']):
+            tgt = None
+            if n.get('k') == 'assign' and sx.is_path(n['l_']):
+                tgt = n['l_']['p']
+            if n.get('k') == 'binary' and n['op'] in ('+=', '-=', '*=', '/=') and sx.is_path(n['l_']):
+                tgt = n['l_']['p']
+            if n.get('k') == 'let' and 'pat' in n and any(x in counters for x in sx.pat_idents(n['pat']) if x) and 'init' in n:
+                tgt = [x for x in sx.pat_idents(n['pat']) if x in counters][0]
+            if tgt in counters:
+                r.fail('%s:%s:counter-modified:%s' % (PP, f, tgt), '%s/%s:%s' % (PP, tab[f][1], n.get('l')),
+                       '%s modifies the ranking counter `%s` in place (%s): the depth then also counts siblings already processed, so legal '
+                       'inputs hit the limit (or, if decremented, recursion is no longer bounded)' % (f, tgt, sx.render(n)[:50]))
     # every simple cycle increments a guarded counter and passes through its guard
     cycles = []
 
